@@ -355,7 +355,7 @@ pub fn c14(ctx: &Ctx, rep: &mut Report) {
             "member-name-clashes", "polymorphic-sites", "methods-named-like-builtins", "method-resolution-depths", "this-chains-and-self-fields", "readme-objects", "constructor-instances",
             "same-text-function-and-method", "one-literal-many-chains", "shared-values", "nested-object-literals", "method-254-args", "many-methods", "many-fields",
             "linked-structures", "tail-call-shapes", "fields-named-like-later-globals", "one-name-everywhere", "this-escapes", "parents-of-every-kind", "reentrant-methods-and-tail-calls",
-            "algebraic-identities", "child-in-parents-field", "block-and-conditional-receivers",
+            "algebraic-identities", "child-in-parents-field", "block-and-conditional-receivers", "aliasing-through-containers", "deep-argument-nesting",
         ];
         if !wanted.contains(&name.as_str()) {
             continue;
